@@ -32,7 +32,7 @@ SHIFTS = [1, 2, 3, 5, 6, 7, 11]
 
 
 def bounds(tier, seed):
-    return dict(schemes=["EF", "RK4"] if tier == "quick" else ["EF", "RK2", "RK4"], layouts=["sparse", "dense"], deaths=["none", "ibm", "leave", "both"],
+    return dict(schemes=["EF", "RK4"] if tier == "quick" else ["EF", "RK2", "RK4"], layouts=["sparse", "dense"], deaths=["none", "ibm", "leave", "both", "settle"],
                 periods=[1, 2], kill_steps=[1] if tier == "quick" else [0, 1, 2, 3])
 
 
@@ -40,7 +40,7 @@ def cases(tier, seed):
     b = bounds(tier, seed)
     out = []
     for sch, lay, death, P, ks in itertools.product(b["schemes"], b["layouts"], b["deaths"], b["periods"], b["kill_steps"]):
-        if death in ("none", "leave") and ks != b["kill_steps"][0]:
+        if death in ("none", "leave", "settle") and ks != b["kill_steps"][0]:
             continue
         if tier == "quick" and lay == "dense" and not (death == ["ibm", "both"][seed % 2] and P == 1 + seed % 2):
             continue  # ladim's dense files cost ~0.1 s per record (16 MB HDF5 chunks): quick keeps a seed-chosen slice
@@ -128,6 +128,8 @@ def run_variant(case, rows, shift=0, mults=None, name="v"):
     ibm = dict(module=drive.plug("sibm.py"), age=True, module_state=True)  # module-level state of a plug-in given by path starts afresh in every run
     if case["death"] in ("ibm", "both"):
         ibm["kill_tags"] = {str(case["kill_step"]): [10 if case["death"] == "ibm" else 11]}
+    if case["death"] == "settle":  # the first particle of the file settles (alive, inactive): the others, stored after it at other depths, go on
+        ibm["settle_tags"] = {str(case["kill_step"]): [10]}
     state = dict(instance_variables=dict(tag="int", temp="float", age="float"), default_values=dict(temp=0.0, age=0.0))
     conf = drive.roms_conf(d, d / "f_*.nc", t0, t0 + sign * NSTEPS * DT, DT, rr, reversed_=sign < 0, outvars=("pid", "X", "Y", "Z", "temp", "age", "tag"),
                            period=case["period"] * DT, layout=case["layout"], tracker=dict(advection=case["scheme"]), state=state, ibm=ibm,
